@@ -361,7 +361,23 @@ def run(rep, b, tier, seed, only_cases=None):
     rep.shrink_module = None
     rng = random.Random(seed * 160481183 + 16)
     corpus = [c['case'] if 'case' in c else c for c in core.load_corpus('C16')]
-    cases = list(only_cases) if only_cases is not None else corpus + [gen_case(rng, tier) for _ in range(300 if tier == 'quick' else 3000)]
+    def directed():
+        # a cookie the server has already verified once is presented again after its expiry (replayed by the client)
+        out = []
+        for secs in (5, 50):
+            for adv in (secs + 1, 500):
+                out.append({'secret': 'bytes', 'second_cookie': False, 'expiry': ['numeric', secs], 'seed': 1, 'arg_name': 'cookie',
+                            'cookie_name': None,
+                            'steps': [{'ops': [['set', 'a', 'x']], 'advance': 1, 'tamper': 'none'},
+                                      {'ops': [], 'advance': 1, 'tamper': 'none'},
+                                      {'ops': [], 'advance': 1, 'tamper': 'none'},
+                                      {'ops': [], 'advance': adv, 'tamper': 'replay_old'},
+                                      {'ops': [], 'advance': 0, 'tamper': 'replay_old'},
+                                      {'ops': [['set', 'b', 1]], 'advance': adv, 'tamper': 'none'},
+                                      {'ops': [], 'advance': 0, 'tamper': 'none'}]})
+        return out
+    cases = list(only_cases) if only_cases is not None else corpus + directed() + \
+        [gen_case(rng, tier) for _ in range(300 if tier == 'quick' else 3000)]
     rep.rule = ('cookielab: histories of %s requests by one client: per request 0-2 operations {set key to a JSON value from %d '
                 '(nested, unicode, numbers, empty), delete, clear, set_expires(now + {-500,-1,30,60,1000})}, a clock advance around the expiry (patched clocks in '
                 'secure_cookie and the middleware), and a tampering step from %d kinds applied to the cookie the client sends '
